@@ -568,6 +568,16 @@ class TT:
             return None
 
         def single(x):      # the one curve of a SimpleShape: X.jordans[0] with X of static type SimpleShape
+            # ... or X.<field or private property typed JordanCurve> of a SimpleShape
+            if isinstance(x, ast.Attribute) and isinstance(x.value, ast.Name) and isinstance(env.get(x.value.id), frozenset) \
+                    and x.attr != "jordans":
+                inf_ = self.ctx.typer.of(fn)
+                owner_cs = self.ctx.typer.classes_of(inf_.typeof(x.value))
+                simple = (owner_cs and all(c == "SimpleShape" for c in owner_cs)) or \
+                    (x.value.id == fn.params[0] and fn.cls == "SimpleShape")
+                val_cs = self.ctx.typer.classes_of(inf_.typeof(x))
+                if simple and val_cs and all(c == "JordanCurve" for c in val_cs):
+                    return env[x.value.id]
             if isinstance(x, ast.Subscript) and owner(x.value) is not None:
                 cs = self.ctx.typer.classes_of(self.ctx.typer.of(fn).typeof(x.value.value))
                 if cs and all(c == "SimpleShape" for c in cs):
